@@ -3958,6 +3958,8 @@ def _dSIR_effective_degree_(X, t, N, original_shape, tau, gamma):
                 for s in range(original_shape[0])])
     SS = sum([sum([s*Ssi[s,i] for i in range(original_shape[1])]) 
                 for s in range(original_shape[0])])
+    if SS == 0: #then ISS is 0 as well and ISS/SS only multiplies terms that are 0
+        SS = 1
     
     #commenting out commands for vectorizing this.  
     #I should do this eventually, but not now.  Apply to SIS version as well.
